@@ -28,7 +28,7 @@ LEVEL = "model_checking"
 # K: one K-th of the non-core binary cases; record: traces, operations per trace
 TIERS = {
     "quick": dict(K=100, rich=0, record=(20, 300), workers=4, timeout=900),
-    "thorough": dict(K=4, rich=1, record=(150, 1000), workers=4, timeout=5400),
+    "thorough": dict(K=2, rich=1, record=(150, 1000), workers=4, timeout=5400),
 }
 
 ALL_OPS = ["Set", "Reset", "Neg", "Abs", "Sqrt", "Sin", "Sinh", "Cos", "Cosh", "Tan", "Tanh", "Exp", "Log", "Log1p", "Log1pExp",
